@@ -113,7 +113,13 @@ def gen_case(rng):
         if lstem != "link" and rng.random() < 0.5:
             layout[lstem.split(".")[0] + ".yaml"] = {"fmt": "yaml", "docs": [{"decoy_parent_of_link_name": True}]}
         lname = lstem + "." + target.rsplit(".", 1)[1]
-        layout[lname] = {"link": target}
+        if rng.random() < 0.35:
+            # link -> link -> file: the chain comes from the FINAL target's name, not from the middle link's
+            mid = rng.choice(["mid", "m.n", "zz.yy.xx"]) + "." + target.rsplit(".", 1)[1]
+            layout[mid] = {"link": target}
+            layout[lname] = {"link": mid}
+        else:
+            layout[lname] = {"link": target}
         opts["inputs"] = [lname]
         opts["format"] = "json"
         if rng.random() < 0.3:
